@@ -265,6 +265,8 @@ class Run(object):
                 if len(out) > 10000:
                     raise HarnessError('runaway iteration')
             return out
+        if kind == 'str':
+            return str(child)
         if kind == 'setbuf':
             child.buffer = self.conv(op['v'])
             return None
